@@ -7,6 +7,7 @@ from mpilot.utils import flatten
 
 LOG = []          # ("enter"|"exit", result_name) and ("consumed", consumer, producer, same_object: bool)
 M = (1 << 61) - 1
+FLAKY = set()     # Ids of commands that fail on their first execution (set by the driver for "flaky" histories)
 
 
 class Value(object):
@@ -58,6 +59,10 @@ class Probe(Command):
                 own = self.program is None or self.program.commands.get(dep.result_name) is dep    # the program's command, not a stand-in
                 LOG.append(("consumed", self.result_name, dep.result_name, r is dep._result and dep.is_finished and own))
                 hs.append(NONE_H if r is None else r.h)
+        if int(kwargs["Id"]) in FLAKY and not getattr(self, "_flaked", False):
+            self._flaked = True          # fails the first time it executes (a data file that is not there yet, Ctrl-C, ...), works the next time
+            LOG.append(("failed", self.result_name))
+            raise RuntimeError("flaky command r%d" % int(kwargs["Id"]))
         LOG.append(("exit", self.result_name))
         if returns_none(int(kwargs["Id"])):
             return None      # like EEMSWrite: a command whose result is None is finished all the same
